@@ -48,6 +48,7 @@ def tasks(tier):
             ts.append(("dens", k, list(pre), tier))
     for k in range(0, PMAX[tier] + 1):
         ts.append(("press", k))
+    ts.append(("long",))
     return ts
 
 
@@ -87,6 +88,23 @@ FULL4 = False
 
 def run_task(task, acc):
     global FULL4
+    if task[0] == "long":
+        def gen():
+            rho = alpha.debruijn(RHO, 4)
+            n = len(rho)
+            down = [10.0 + i for i in range(n)]
+            updown = [10.0 + (i if i < n // 2 else n - i) for i in range(n)]
+            steps = [10.0 + (i // 3) for i in range(n)]
+            for z in (down, list(reversed(down)), updown, steps):
+                for s in THR:
+                    for f in THR:
+                        yield dict(fn="density", rho=list(rho), z=z, suspect=s, fail=f)
+            p = alpha.debruijn((0.0, 1.0, 2.0, 3.0), 4)
+            ramp = [v + 2.0 * i for i, v in enumerate(p)]
+            for series in (p, ramp, list(reversed(ramp))):
+                yield dict(fn="pressure", p=list(series))
+        run_cases(acc, gen(), check_case)
+        return
     if task[0] == "dens":
         _, n, first = task[:3]
         FULL4 = len(task) > 3 and task[3] == "thorough"
